@@ -10,6 +10,7 @@ CONSTANTS
   Horizon = 30
   MaxEx = 16
   ProbeNs <- GProbes
+  ProbeUids <- GUids
   Exhaustive = FALSE
   Biases <- BiasAll
   TickPct = 12
